@@ -14,6 +14,7 @@ foreign id was delivered where the code inspects it are exempt: the real task pa
 silent about such shells).  Helper lemmas: `CruxVerif/Lemmas/Timer/*.lean`.
 -/
 import CruxVerif.Lemmas.Timer.Direct
+import CruxVerif.Lemmas.Timer.Legacy
 namespace Props.C18
 open M.Timer S.Timer Lemmas.Timer
 
@@ -178,6 +179,58 @@ theorem C18_command_sound (host : Host) (kinds : List Kind) (ids : List Nat) (st
   obtain ⟨⟨k, id⟩, _, rfl⟩ := ht
   exact ⟨k, id, rfl⟩
 
+/-! ### legacy capability API (`caps.time.notify_after / notify_at / clear`)
+
+One legacy timer is run by `ltrace1 newId t inSet acts`: `lstep1` per action, with `inSet` tracking whether the
+timer's id is in CLEARED_TIMER_IDS and `newId` the id it gets when started.  `lverdict1 strict k id {}` is the legacy
+monitor; `strict = true` is the oracle, `strict = false` leaves out exactly the clause "a clear of a timer that is not
+pending sends nothing". -/
+
+/-- a legacy timer before it is started; its id is not in the cleared set -/
+abbrev lfresh (k : Kind) : LTimer := { kind := k }
+
+/-- **Full statement for the legacy API**: the oracle accepts every history of a legacy timer. -/
+def C18_legacy_full : Prop :=
+  ∀ (k : Kind) (newId : Nat) (acts : List LAct),
+    lverdict1 true k (lfinal1 newId (lfresh k) false acts).id {} (ltrace1 newId (lfresh k) false acts) = none
+
+/-- It is false on the unchanged code: a timer started and cleared in the same `update` — the shell never saw it — still
+    makes `clear` send `Clear{id}` (lib.rs:151-163 notifies unconditionally).  Reproduced against the real code by the
+    corpus case `legacy A S0` (known finding `legacy-clear-always-notifies`). -/
+theorem C18_legacy_full_false : ¬ C18_legacy_full := by
+  intro h
+  have := h .after 1 [.startClear]
+  revert this
+  decide
+
+/-- the witness, spelled out: the model shows `Clear{1}` and `Cleared{1}`, the oracle names the clause -/
+theorem legacy_clear_before_start_not_silent :
+    ltrace1 1 (lfresh .after) false [.startClear] = [⟨.startClear, .unit, [.clear 1], [.got (.cleared 1)]⟩] ∧
+    lverdict1 true .after (some 1) {} (ltrace1 1 (lfresh .after) false [.startClear])
+      = some "legacy-clear-always-notifies" := by
+  decide
+
+/-- **Partial statement**: every other clause holds for every history of a legacy timer — at most one outcome, a
+    non-cleared outcome only if the shell answered (and then exactly its answer), cleared only if the app cleared it,
+    a clear while pending sends exactly one `Clear{id}` for its id, everything carries the timer's own id, nothing
+    shows up in steps that do not run the timer. -/
+theorem C18_legacy_partial (k : Kind) (newId : Nat) (acts : List LAct) :
+    lverdict1 false k (lfinal1 newId (lfresh k) false acts).id {} (ltrace1 newId (lfresh k) false acts) = none :=
+  lverdict1_ltrace1 newId acts (lfresh k) false {} (linv_fresh k) (LR_fresh k) (by intro _; rfl)
+
+/-- A legacy timer cleared while pending reports `Cleared{id}` when the shell next answers its request, whatever the
+    answer (`TimerFuture` looks at the cleared set first) — and `clear` itself wakes nobody, so nothing is reported
+    before that. -/
+theorem legacy_cleared_reports (k : Kind) (id newId : Nat) (rq : Req) (n : Nat) (s : Shape)
+    (hheld : rq.shell = .held) (hans : rq.answer = none) :
+    (lstep1 { kind := k, id := some id, req := rq, clears := n + 1 } true newId (.resolveReq s)).2.1.events
+      = [.got (.cleared id)] ∧
+    (lstep1 { kind := k, id := some id, req := rq, clears := n } false newId .clear).2.1.events = [] := by
+  rcases rq with ⟨rs, ra⟩
+  simp only at hheld hans
+  subst hheld hans
+  simp [lstep1, Req.resolve]
+
 /-! ### non-vacuity (tests by evaluation) -/
 
 /-- the canonical clear: request, clear, Clear request, its answer, cleared -/
@@ -198,5 +251,14 @@ example : verdict1 .after 1 {} [⟨.tick, true, .unit, [.notify .after 1], []⟩
     = some "output-after-outcome" := by decide
 example : verdict1 .after 1 {} [⟨.clear, false, .unit, [], []⟩, ⟨.tick, true, .unit, [.notify .after 1], []⟩]
     = some "early-clear-not-silent" := by decide
+
+/-- legacy: clear while pending, then the shell fires: Cleared is reported, the answer is dropped -/
+example : (ltrace1 5 (lfresh .at) false [.start, .clear, .resolveReq .good]).map (fun e => (e.effects, e.events)) =
+    [([.notify .at 5], []), ([.clear 5], []), ([], [.got (.cleared 5)])] := by decide
+/-- the strict legacy monitor accepts a disciplined history and rejects a clear after the outcome -/
+example : lverdict1 true .at (some 5) {} (ltrace1 5 (lfresh .at) false [.start, .clear, .resolveReq .good]) = none := by
+  decide
+example : lverdict1 true .at (some 5) {} (ltrace1 5 (lfresh .at) false [.start, .resolveReq .good, .clear])
+    = some "legacy-clear-always-notifies" := by decide
 
 end Props.C18
